@@ -825,11 +825,15 @@ impl<T> Sender<T> {
                     }
                     return Err(SendErrorTimeout::Closed);
                 }
-                {
-                    let mut internal = acquire_internal(&self.internal);
-                    if internal.cancel_send_signal(&sig) {
-                        return Err(SendErrorTimeout::Timeout);
+                let cancelled = acquire_internal(&self.internal).cancel_send_signal(&sig);
+                if cancelled {
+                    // Safety: the signal is removed from the wait list, so
+                    // data failed to move, sender should drop it if it needs
+                    // to
+                    if needs_drop::<T>() {
+                        unsafe { data.assume_init_drop() }
                     }
+                    return Err(SendErrorTimeout::Timeout);
                 }
                 // removing receive failed to wait for the signal response
                 if !sig.wait() {
